@@ -19,6 +19,20 @@ MARK = "SIM-INJECTED"
 
 
 def _make_exc(name: str) -> BaseException:
+    e = _make_exc_raw(name)
+    try:
+        setattr(e, "_sim_injected", True)
+    except Exception:  # pylint: disable=broad-except
+        pass
+    return e
+
+
+def _make_exc_raw(name: str) -> BaseException:
+    if name == "TealerExceptionBare":
+        # what the accessors of BlockTransactionContext raise: no message at all
+        from tealer.exceptions import TealerException  # pylint: disable=import-outside-toplevel
+
+        return TealerException()
     if name == "KeyboardInterrupt":
         return KeyboardInterrupt(MARK)
     if name == "MemoryError":
@@ -40,7 +54,7 @@ def is_injected(exc: BaseException) -> bool:
     e: Optional[BaseException] = exc
     seen = 0
     while e is not None and seen < 8:
-        if MARK in str(e) or (isinstance(e, OSError) and e.strerror == MARK):
+        if getattr(e, "_sim_injected", False) or MARK in str(e) or (isinstance(e, OSError) and e.strerror == MARK):
             return True
         e = e.__cause__ or e.__context__
         seen += 1
@@ -109,7 +123,7 @@ class Tracer:
                 if self.detector_events == self._k:
                     self.fired = True
                     self.fired_at = fn[len(self.root) :] + ":" + code.co_name
-                    self.exc_obj = _make_exc("TealerException")
+                    self.exc_obj = _make_exc("TealerExceptionBare" if self.spec.get("bare") else "TealerException")
                     raise self.exc_obj
             return None
         # exc_call / exc_line
